@@ -1,5 +1,5 @@
 """C09 — heap component; see harness/heap.py"""
-from .. import heap, refgraph, layout, common
+from .. import heap, refgraph, layout, hybrid, common
 
 PROP = "C09"
 PREFIX = ('C09:',)
@@ -28,12 +28,19 @@ def _lay(tier, seed):
     return _cache[("lay", tier, seed)]
 
 
+def _hyb(tier, seed):
+    if ("hyb", tier, seed) not in _cache:
+        _cache[("hyb", tier, seed)] = hybrid.run_all(tier, seed)
+    return _cache[("hyb", tier, seed)]
+
+
 def run(tier, seed):
     r = _run(tier, seed)
     g = _rg(tier, seed)
     la = _lay(tier, seed)      # copies made before a whole update through the element's own handle (run_resplit)
+    hy = _hyb(tier, seed)      # HybridClass.copy() (one of the observation points): oracle key C09:hybrid-copy-*
     return {
-        "failures": _mine(r["failures"]) + _mine(g["failures"]) + _mine(la["failures"]),
+        "failures": _mine(r["failures"]) + _mine(g["failures"]) + _mine(la["failures"]) + _mine(hy["failures"]),
         "mismatches": r["mismatches"] + g["mismatches"] + la["mismatches"],
         "evaluations": r["lines"] + g["lines"],
         "distinct_nontrivial": r["distinct"] + g["distinct"],
@@ -53,7 +60,7 @@ def run(tier, seed):
                                   "nodes_created_by_them": g["tags"].get("xcopy.nodes", 0),
                                   "skipped_cyclic_or_huge": g["tags"].get("xcopy.skipped-cyclic-or-huge", 0)}},
         "assumptions": ['offsets below 2^62'],
-        "partial": ['types that hold references are rebuilt field-/item-wise: a theorem (C09_copy_shares_referents) for node classes (static structs of scalars, Ref and UnionRef fields) copied inside one buffer, and (C09_copy_into_other_buffer) copied into another buffer with all referents duplicated; references held in arrays / dynamic structs: executable heap model + oracle only; cyclic sources (RecursionError in the library) are not copied across buffers by the harness; HybridClass.copy() is covered under C18'],
+        "partial": ['types that hold references are rebuilt field-/item-wise: a theorem (C09_copy_shares_referents) for node classes (static structs of scalars, Ref and UnionRef fields) copied inside one buffer, and (C09_copy_into_other_buffer) copied into another buffer with all referents duplicated; references held in arrays / dynamic structs: executable heap model + oracle only; cyclic sources (RecursionError in the library) are not copied across buffers by the harness; HybridClass.copy() is covered under C18 (its reference clause - the copy's references resolve in the copy's buffer - is also reported here, key C09:hybrid-copy-*)'],
     }
 
 
